@@ -33,7 +33,7 @@ def schedules(start, end):
                     [stamp(d, pre) for d in rm.month_end_bdays(d0, d1)], True))
     sd = d0 if rm.is_bday(d0) else rm.next_bday(d0)
     out.append(('buy_and_hold', lambda: BuyAndHoldRebalance(start),
-                [rm.utc(sd, start.hour, start.minute, start.second)], False))
+                [rm.utc(sd, start.hour, start.minute, start.second).replace(microsecond=start.microsecond)], False))
     return out
 
 
@@ -116,6 +116,15 @@ def per_start(item):
         shapes.add((d0.weekday(), d0.month, k))
         if len(viols) > 10:
             break
+    if d0.day in (3, 17, 28):
+        # a start (and end) with a sub-second part, e.g. pd.Timestamp.now(): stamps are still 21:00:00 / 14:30:00 sharp
+        import pandas as pd
+        for k in (6, 33):
+            st = ts(d0, (9, 15)) + pd.Timedelta(microseconds=345678)
+            en = ts(d0 + datetime.timedelta(days=k), (23, 59)) + pd.Timedelta(microseconds=999999)
+            f, c = check_range(st, en)
+            n += c
+            viols += f
     if d0.day in (1, 15):
         viols += check_bad_weekdays(ts(d0, (0, 0)), ts(d0 + datetime.timedelta(days=20), (23, 59)))
         n += len(BAD_WEEKDAYS) + 2
